@@ -66,6 +66,15 @@ let self_check () =
   if string_of_z (z_of_string "-18446744073709551617") <> "-18446744073709551617" then
     failwith "z decimal conversion check failed"
 
+(* a non-negative z below 2^64 as 16 hex digits *)
+let hex64_of_z (x : z) : string =
+  let sixteen = z_of_int 16 in
+  let rec go (v : z) (n : int) (acc : string) =
+    if n = 0 then acc
+    else go (Z.div v sixteen) (n - 1) (Printf.sprintf "%x" (int_of_z (Z.modulo v sixteen)) ^ acc)
+  in
+  go x 16 ""
+
 let split_ws (s : string) : string list =
   List.filter (fun x -> x <> "") (String.split_on_char ' ' s)
 
